@@ -328,6 +328,75 @@ pub fn salts(ctx: &Ctx, rep: &mut Report) {
         }
     }
     rep.require("signatures_made_during_unwinding", 40);
+    // COPIES OF A USED KEY: a key object that has already signed is cloned (and re-decoded from
+    // its bytes) at several points of its life; the original and every copy then sign in turn, in
+    // this thread and in fresh threads. Per-object signing state that a copy inherits (a
+    // generator or counter stored in the key) repeats salts here and nowhere else.
+    {
+        fn copies<V: Fv>(ctx: &Ctx, rep: &mut Report, all: &mut Vec<SaltRec>) {
+            let (kp, _) = pool::keys::<V>(ctx.seed, "c08-copies", 2);
+            for (ki, k) in kp.iter().enumerate() {
+                let mut recs: Vec<SaltRec> = vec![];
+                let mut push = |b: Vec<u8>, who: String| recs.push(SaltRec { salt: b[1..41].to_vec(), sig_hash: crate::util::hash64(&b), ctx: who });
+                vh::set_sign_rng(None);
+                // a fresh object for this history (the pool's own object may have been used)
+                let original = match V::sk_from_bytes(&V::sk_to_bytes(&k.sk)) {
+                    Ok(o) => o,
+                    Err(_) => continue,
+                };
+                let mut objects: Vec<(String, V::Sk)> = vec![];
+                objects.push(("clone taken before the first signature".into(), original.clone()));
+                for stage in 0..ctx.sz(4, 12) {
+                    // the original signs a little ...
+                    for j in 0..(1 + stage % 3) {
+                        let msg = format!("copies-{}-{}-{}", ki, stage, j).into_bytes();
+                        if let Ok(b) = monitored(|| V::sig_to_bytes(&V::sign(&msg, &original))) {
+                            push(b, format!("{} key {}: original object, stage {} call {}", V::NAME, ki, stage, j));
+                        }
+                    }
+                    // ... then is copied
+                    objects.push((format!("clone taken after stage {}", stage), original.clone()));
+                    if let Ok(o) = V::sk_from_bytes(&V::sk_to_bytes(&original)) {
+                        objects.push((format!("re-decoded from bytes after stage {}", stage), o));
+                    }
+                    if let Some((_, last)) = objects.last() {
+                        let again = last.clone();
+                        objects.push((format!("clone of a copy after stage {}", stage), again));
+                    }
+                    // every copy made so far signs the SAME message, half of them in fresh threads
+                    let msg = format!("copies-{}-{}-all", ki, stage).into_bytes();
+                    let mut hs = vec![];
+                    for (oi, (what, o)) in objects.iter().enumerate() {
+                        if oi % 2 == 0 {
+                            if let Ok(b) = monitored(|| V::sig_to_bytes(&V::sign(&msg, o))) {
+                                push(b, format!("{} key {}: {} (same thread, stage {})", V::NAME, ki, what, stage));
+                            }
+                        } else {
+                            let (o2, m2, what2) = (o.clone(), msg.clone(), what.clone());
+                            hs.push((what2, std::thread::spawn(move || {
+                                vh::set_sign_rng(None);
+                                // the thread's copy signs, and so does the object it was cloned from later on
+                                monitored(|| V::sig_to_bytes(&V::sign(&m2, &o2)))
+                            })));
+                        }
+                    }
+                    for (what, h) in hs {
+                        if let Ok(Ok(b)) = h.join() {
+                            push(b, format!("{} key {}: clone of [{}] moved to a fresh thread (stage {})", V::NAME, ki, what, stage));
+                        }
+                    }
+                }
+                rep.count("signatures_by_copies_of_used_keys", recs.len() as u64);
+                rep.count("key_objects_copied_after_use", objects.len() as u64);
+                check_history(&format!("{}: original and copies of a used key object", V::NAME), &recs, rep);
+                rep.nontrivial_s(&format!("history|copies|{}|{}", V::NAME, ki));
+                all.extend(recs);
+            }
+        }
+        copies::<F512>(ctx, rep, &mut all);
+        copies::<F1024>(ctx, rep, &mut all);
+        rep.require("signatures_by_copies_of_used_keys", 100);
+    }
     // how much of the generator's output the salt carries: two generator streams (RNG hook) that
     // agree ONLY on a window of at most 32 output positions and are independent everywhere else
     // cannot lead to the same 40-byte salt, wherever in the stream the salt is drawn from; a salt
